@@ -3,10 +3,16 @@
 (* goroutines (sequence numbers taken while the resource is held: after Get, *)
 (* before Put, inside the mutex) is accepted only if every event is enabled  *)
 (* in the protocol of module Conc:                                           *)
-(*   2 parse.locked     needs the parser free        (MutualExclusion)       *)
-(*   3 parse.unlocking  by the holder                                        *)
+(*   2 parse.locked     by nobody who already holds it                       *)
+(*   3 parse.unlocking  by a holder                                          *)
 (*   6/8 pool get of b  needs b not owned by anybody (BufferPrivacy)         *)
 (*   7/9 pool put of b  by its owner                                         *)
+(* Whether two goroutines are inside the parser section at once is printed   *)
+(* ("overlap"), not rejected: with the ONE package-level parser of this tree  *)
+(* it never happens (Conc!MutualExclusion) and the driver reports it in the   *)
+(* evidence; in a tree that gives every Parse call a parser of its own it is  *)
+(* legal, and what C06 demands there is decided by the race detector and the  *)
+(* comparison with sequential results, not by this protocol.                  *)
 (* Events 1, 4, 5 carry no obligation.  Hook events are optional: a refactor *)
 (* that removes a pool removes events, it cannot cause a rejection.          *)
 EXTENDS Integers, Sequences, TLC, Json
@@ -16,13 +22,14 @@ Trace == ndJsonDeserialize(TraceFile)
 VARIABLES l, holder, owner      \* owner: function buffer id -> goroutine (0 = free); domain grows
 vars == <<l, holder, owner>>
 Bufs == {Trace[i].buf : i \in 1..Len(Trace)} \ {0}
-Init == l = 1 /\ holder = 0 /\ owner = [b \in Bufs |-> 0]
+Init == l = 1 /\ holder = {} /\ owner = [b \in Bufs |-> 0]
 
 Ev == Trace[l]
 Step ==
   /\ l <= Len(Trace) /\ l' = l + 1
-  /\ CASE Ev.point = 2 -> holder = 0 /\ holder' = Ev.g /\ UNCHANGED owner
-       [] Ev.point = 3 -> holder = Ev.g /\ holder' = 0 /\ UNCHANGED owner
+  /\ CASE Ev.point = 2 -> Ev.g \notin holder /\ holder' = holder \cup {Ev.g} /\ UNCHANGED owner
+                           /\ (holder # {} => PrintT(<<"overlap", l>>))
+       [] Ev.point = 3 -> Ev.g \in holder /\ holder' = holder \ {Ev.g} /\ UNCHANGED owner
        [] Ev.point \in {6, 8} -> owner[Ev.buf] = 0 /\ owner' = [owner EXCEPT ![Ev.buf] = Ev.g] /\ UNCHANGED holder
        [] Ev.point \in {7, 9} -> owner[Ev.buf] = Ev.g /\ owner' = [owner EXCEPT ![Ev.buf] = 0] /\ UNCHANGED holder
        [] OTHER -> UNCHANGED <<holder, owner>>
